@@ -15,6 +15,9 @@ CONSTANTS
   SMCells2 <- CellsS2
   SMWeights = {}
   MaxOps = 3
+  PLeaves = 2
+  PCells <- CellsS2
+  TipsNarrowed = FALSE
   Shipped = TRUE
 INVARIANT TreeOk
 INVARIANT PureScore
